@@ -230,10 +230,11 @@ def _chunk_worker(args):
         # wall-clock limits are the one timing-dependent thing in the harness: a run that exceeds
         # the first limit (load, a burst of JIT compilations) is simply run again with a much
         # longer one; only a run that exceeds both is reported as a hang
-        for limit in (300, 2400):
+        limits = tuple(int(x) for x in os.environ.get("VERIF_HANG_LIMITS", "300,2400").split(","))
+        for limit in limits:
             signal.alarm(limit)
             try:
-                if limit != 300:
+                if limit != limits[0]:
                     rng = run_rng(seed, mod.PROP_ID, idx)
                     mod.gen_config(rng, tier)          # re-consume the configuration draws
                 r = execute(mod.RunClass, cfg, rng=rng, max_steps=cfg["steps"])
@@ -246,7 +247,7 @@ def _chunk_worker(args):
             r = {"cfg": cfg, "ops": [], "digest": "timeout", "steps": 0, "stats": Counter(),
                  "probes": Counter(), "states": set(), "trans": set(), "nontrivial": False,
                  "oracle_steps": 0,
-                 "violation": {"step": -1, "oracle": "hang", "detail": {"limit_s": 2400}, "trigger": None}}
+                 "violation": {"step": -1, "oracle": "hang", "detail": {"limit_s": limits[-1]}, "trigger": None}}
         agg["stats"].update(r["stats"])
         agg["probes"].update(r["probes"])
         agg["states"].update(r["states"])
